@@ -523,7 +523,8 @@ def run(chk):
         chk.violation(f"{orc}: {msg}" + (f" [{cls} class]" if cls else ""), rec)
     chk.coverage.update({"shapes": len(all_shapes), "assignments_enumerated": n_assign, "random_statements": n_rand, "providers": ["dict"] + (["sqlite"] if have_sqlite else []),
                          "sqlalchemy_available": have_sqlite, "patterns": list(PATTERNS), "distribution": st.as_dict(),
-                         "exhaustive": "assignments of {known, unknown} to the tables in scope of every targeted shape (all subsets); random statements: sampled"})
+                         "exhaustive": False,
+                         "exhaustive_part": "assignments of {known, unknown} to the tables in scope of every targeted shape: all subsets; random statements: sampled"})
     chk.assumptions += ["SQLAlchemy reflection is used as a black box (sqlite in memory, one attached in-memory database per schema)",
                         "the attribution of a column name shared by several relations under an unqualified `*` depends on set order (C11 / D16): "
                         "for those statements only table-level equality and the correspondence modulo order are checked",
